@@ -53,7 +53,7 @@ def run_one(spec, repo, analyse_findings, known_keys):
     try:
         dst = os.path.join(work, "repo")
         copy_tree(repo, dst)
-        if spec["kind"] == "seeded":
+        if "patch" in spec:
             r = subprocess.run(["patch", "-p1", "-s", "-i", spec["patch"]], cwd=dst, capture_output=True, text=True)
             why = None if r.returncode == 0 else "patch does not apply: " + (r.stdout + r.stderr)[:200]
         else:
@@ -99,8 +99,21 @@ def seeded_specs(prop):
     return out
 
 
+def benign_patch_specs(prop):
+    """independent behaviour-preserving refactorings filed under benign/<id>/: every property's rules must stay silent on them"""
+    out = []
+    root = os.path.join(VERIF, "benign")
+    if not os.path.isdir(root):
+        return out
+    for bid in sorted(os.listdir(root)):
+        pp = os.path.join(root, bid, "patch.diff")
+        if os.path.exists(pp):
+            out.append({"property": prop, "kind": "benign", "name": "refactoring:" + bid, "patch": pp})
+    return out
+
+
 def run(prop, repo, analyse_findings, known_keys=(), jobs=None):
-    specs = load_corpus(prop) + seeded_specs(prop)
+    specs = load_corpus(prop) + seeded_specs(prop) + benign_patch_specs(prop)
     jobs = jobs or min(12, max(1, (os.cpu_count() or 4) - 2))
     results = []
     with concurrent.futures.ThreadPoolExecutor(max_workers=jobs) as ex:
